@@ -183,6 +183,76 @@ func patch(doc, update types.Map) (types.Map, error) {
 	return doc.Immutable(), nil
 }
 
+// pinned returns the top-level fields that every document matching filter holds with one known, non-nil value.
+func pinned(filter types.Value) types.Map {
+	doc := types.NewMap().Mutable()
+
+	f, ok := filter.(types.Map)
+	if !ok {
+		return doc.Immutable()
+	}
+
+	for k, value := range f.Range() {
+		key, ok := k.(types.String)
+		if !ok {
+			continue
+		}
+
+		if !strings.HasPrefix(key.String(), "$") {
+			if cond, ok := value.(types.Map); ok {
+				value = cond.Get(types.NewString("$eq"))
+			}
+			if value != nil {
+				doc.Set(key, value)
+			}
+			continue
+		}
+
+		if vals, ok := value.(types.Slice); ok && key.String() == "$and" {
+			for _, sub := range vals.Range() {
+				for k, v := range pinned(sub).Range() {
+					doc.Set(k, v)
+				}
+			}
+		}
+	}
+	return doc.Immutable()
+}
+
+// fields returns the top-level fields a filter examines; ok is false when it examines the document in any other way.
+func fields(filter types.Value) ([]types.String, bool) {
+	f, ok := filter.(types.Map)
+	if !ok {
+		return nil, false
+	}
+
+	var keys []types.String
+	for k, value := range f.Range() {
+		key, ok := k.(types.String)
+		if !ok {
+			return nil, false
+		}
+
+		if !strings.HasPrefix(key.String(), "$") {
+			keys = append(keys, key)
+			continue
+		}
+
+		vals, ok := value.(types.Slice)
+		if !ok || (key.String() != "$and" && key.String() != "$or") {
+			return nil, false
+		}
+		for _, sub := range vals.Range() {
+			children, ok := fields(sub)
+			if !ok {
+				return nil, false
+			}
+			keys = append(keys, children...)
+		}
+	}
+	return keys, true
+}
+
 func extract(filter types.Value) (types.Value, error) {
 	f, ok := filter.(types.Map)
 	if !ok {
